@@ -232,8 +232,13 @@ func c17r1(rc *core.RC) {
 		var maskExpr ast.Expr
 		ast.Inspect(v.fn.Body, func(n ast.Node) bool {
 			if as, ok := n.(*ast.AssignStmt); ok && len(as.Lhs) == 1 && len(as.Rhs) == 1 {
-				if id, ok := as.Lhs[0].(*ast.Ident); ok && id.Name == "mask" {
-					maskExpr = as.Rhs[0]
+				// the SWAR mask, whatever it is called: a uint64 assigned an |-combination of terms over the loaded word
+				if id, ok := as.Lhs[0].(*ast.Ident); ok && id.Name != "_" {
+					if be, isOr := core.Unparen(as.Rhs[0]).(*ast.BinaryExpr); isOr && be.Op == token.OR {
+						if t := p.Info(v.fn).TypeOf(id); t != nil && t.String() == "uint64" {
+							maskExpr = as.Rhs[0]
+						}
+					}
 				}
 			}
 			return true
